@@ -4,7 +4,7 @@
 P=$1; W=$2
 cd "$W" || exit 2
 export CARGO_NET_OFFLINE=true
-cp "$W/_seed/demo.rs" "$W/tests/demo_seed.rs" 2>/dev/null
+mkdir -p "$W/tests"; cp "$W/_seed/demo.rs" "$W/tests/demo_seed.rs" 2>/dev/null
 suite=$(cargo test --offline --lib 2>&1 | grep "^test result" | head -1)
 with=$(cargo test --offline --test demo_seed 2>&1 | grep "^test result" | head -1)
 git diff -- src > /tmp/seedpatch_$P.diff; git checkout -- src
